@@ -30,7 +30,7 @@ type Stats struct {
 	Rule       string            `json:"rule"`
 	// Digest summarises everything the process computed that must be the same in every process
 	// given the same seed (C13).
-	Digest string `json:"digest"`
+	Digest     string `json:"digest"`
 	hashes     map[uint64]struct{}
 	maxSamples int
 }
